@@ -32,6 +32,8 @@ def tup2RStr : Tup2R → String
   | .trap => "trap"
   | .some a b => s!"{tupDigest a}+{tupDigest b}"
 
+def joinStrs (xs : List String) : String := if xs.isEmpty then "-" else " ".intercalate xs
+
 def joinBar (xs : List String) : String := " | ".intercalate xs
 
 /-- one `TupleVariation` as the harness renders it -/
@@ -71,6 +73,82 @@ def renderTvd (p : TVD) (isPoint : Bool) (coords : List Int) : String :=
         | some (.err e) => errStr e
         | none => "fuel"
       joinBar ([s!"{p.countBits} {sp} {ts.length} {act}"] ++ ts.map (renderTuple p isPoint coords))
+
+def rIntStr : R Int → String
+  | .ok v => toString v
+  | .err e => errStr e
+  | .trap => "trap"
+
+/-- `<k> x1 … xk rest…` -/
+def takeCounted (xs : List String) : Option (List String × List String) :=
+  match xs with
+  | [] => none
+  | k :: rest =>
+    match k.toNat? with
+    | none => none
+    | some k => if k ≤ rest.length then some (rest.take k, rest.drop k) else none
+
+def pairsOf : List Nat → Option (List (Nat × Nat))
+  | [] => some []
+  | a :: b :: r => (pairsOf r).map ((a, b) :: ·)
+  | _ => none
+
+def handle3 (cmd : String) (args : List String) : Option String :=
+  match cmd, args with
+  | "hv.dsim", hex :: idxs =>
+    match parseHex? hex, parseNats? idxs with
+    | some d, some idxs =>
+      match dsimRead d with
+      | .err e => some (errStr e)
+      | .trap => some "trap"
+      | .ok m =>
+        let ef := m.entryFormat
+        let per := idxs.map (fun i => match m.get i with
+          | .ok (o, n) => s!"{o}:{n}"
+          | .err e => errStr e
+          | .trap => "trap")
+        let dl := match m.mapData with | some x => toString x.length | none => "trap"
+        some s!"{m.format} {optStr ef} {optStr (ef.map entrySize)} {optStr (ef.map bitCount)} {optStr m.mapCount} {dl} | {" ".intercalate per}"
+    | _, _ => none
+  | "hv.ivs", hex :: rest =>
+    match parseHex? hex, takeCounted rest with
+    | some d, some (ps, coords) =>
+      match parseNats? ps, parseInts? coords with
+      | some ps, some cs =>
+        match pairsOf ps with
+        | none => none
+        | some pairs =>
+          match ivsRead d with
+          | none => some "eO"
+          | some s =>
+            let per := pairs.map (fun (p : Nat × Nat) =>
+              let f := match s.computeFloatDelta p.1 p.2 cs with | .ok _ => "ok" | .err e => errStr e | .trap => "trap"
+              s!"{rIntStr (s.computeDelta p.1 p.2 cs)}/{f}")
+            some (joinStrs per)
+      | _, _ => none
+    | _, _ => none
+  | "hv.metrics", tbl :: which :: hex :: rest =>
+    match which.toNat?, parseHex? hex, takeCounted rest with
+    | some which, some d, some (gids, coords) =>
+      match parseNats? gids, parseInts? coords with
+      | some gids, some cs =>
+        if tbl ≠ "h" ∧ tbl ≠ "v" then none
+        else if which > (if tbl = "v" then 3 else 2) then none
+        else some (joinStrs (gids.map (fun g => rIntStr (metricsDelta d (tbl = "v") which g cs))))
+      | _, _ => none
+    | _, _, _ => none
+  | "hv.mvar", hex :: rest =>
+    match parseHex? hex, takeCounted rest with
+    | some d, some (tags, coords) =>
+      match parseNats? tags, parseInts? coords with
+      | some tags, some cs => some (joinStrs (tags.map (fun t => rIntStr (mvarMetricDelta d t cs))))
+      | _, _ => none
+    | _, _ => none
+  | "hv.avar", hex :: coords =>
+    match parseHex? hex, parseInts? coords with
+    | some d, some cs => some (joinStrs (cs.map (fun c => rIntStr (segmentMapsApply d c))))
+    | _, _ => none
+  | _, _ => none
 
 def handle (cmd : String) (args : List String) : Option String :=
   match cmd, args with
@@ -129,6 +207,6 @@ def handle (cmd : String) (args : List String) : Option String :=
         | .ok none => some "none"
         | .ok (some p) => some (renderTvd p true cs)
     | _, _, _ => none
-  | _, _ => none
+  | _, _ => handle3 cmd args
 
 end FontVerif.Drv.C01HandVar
